@@ -36,7 +36,15 @@ def gen_set(r):
     return out, nr
 
 
+def open_rep(x, n):
+    """e{n,}: same language as e{n}e*, written with the open-ended counted repetition"""
+    return {"kind": "re", "ast": ("cat", [("rep", x, n, n), ("star", x)]), "rung": 0,
+            "text": "%s{%d,}" % (rx.atom(x) if hasattr(rx, "atom") else rx.to_rust(x), n)}
+
+
 def lit_text(e):
+    if e.get("text"):
+        return 'r#"%s"#' % e["text"]
     if e["kind"] == "lit":
         return '"%s"' % e["ast"][1]
     return 'r#"%s"#' % rx.to_rust(e["ast"])
@@ -95,6 +103,16 @@ def run(tier):
         ([{"kind": "re", "ast": ("plus", AZ), "rung": 0}, {"kind": "re", "ast": ("cat", [("plus", ("cls", [(97, 99)], False))]), "rung": 0},
           {"kind": "re", "ast": ("plus", ("cls", [(97, 122), (48, 57)], False)), "rung": 1}], 2),
         ([{"kind": "re", "ast": ("plus", AZ), "rung": 1}, {"kind": "lit", "ast": ("lit", "if"), "rung": 0}, {"kind": "re", "ast": ("plus", ("cls", [(48, 57)], False)), "rung": 1}], 2),
+    ]
+    EQ, A_, ABC = ("lit", "="), ("lit", "a"), ("cls", [(97, 99)], False)
+    corpus += [
+        ([open_rep(EQ, 2), {"kind": "re", "ast": ("alt", [("lit", "=="), ("lit", "!=")]), "rung": 0}], 0),
+        ([open_rep(EQ, 3), {"kind": "re", "ast": ("alt", [("lit", "=="), ("lit", "!=")]), "rung": 0}], 0),
+        ([open_rep(A_, 2), {"kind": "lit", "ast": ("lit", "aa"), "rung": 0}, {"kind": "re", "ast": ("plus", ("cls", [(48, 57)], False)), "rung": 0}], 0),
+        ([open_rep(ABC, 3), {"kind": "re", "ast": ("lit", "abc"), "rung": 0}], 0),
+        ([open_rep(ABC, 2), {"kind": "re", "ast": ("cat", [("lit", "c"), ("lit", "b"), ("lit", "a")]), "rung": 0}], 0),
+        ([{"kind": "re", "ast": ("rep", A_, 2, 3), "rung": 0}, {"kind": "re", "ast": ("lit", "aaa"), "rung": 0}], 0),
+        ([{"kind": "re", "ast": ("rep", ABC, 1, 2), "rung": 0}, {"kind": "re", "ast": ("lit", "abc"), "rung": 0}], 0),
     ]
     for i in range(n + len(corpus)):
         terms, nr = corpus[i] if i < len(corpus) else gen_set(r)
